@@ -214,6 +214,8 @@ class PX:
     def _yield_stack(self, v):
         self._tls.ys = v
 
+    NOT_NONE = frozenset({"code"})  # tags of symbolic values that stand for decoded objects (never None)
+
     def __init__(self, repo, *, models=None, inline=None, max_paths=20000, max_depth=4, cancel=False,
                  loop_iters=(0, 1, 2), while_bound=3, facts=None, auto_timeout=True, pure=(), refine_membership=False,
                  fork_loop_bound=12, budget_s=120.0):
@@ -1714,6 +1716,9 @@ class PX:
             if isinstance(l, abstract) or isinstance(r, abstract):
                 if isinstance(l, Sym) and isinstance(r, Sym) and l.tag == r.tag:
                     return True
+                # a symbolic value a rule declared to stand for a real object (a decoded reset code, say) is not None
+                if (l is None and isinstance(r, Sym) and r.tag in self.NOT_NONE) or (r is None and isinstance(l, Sym) and l.tag in self.NOT_NONE):
+                    return False
                 a, b = sorted([_short(l), _short(r)])
                 return Sym(f"({a} is {b})")
             if isinstance(l, Member) and isinstance(r, Member):
